@@ -658,8 +658,41 @@ pub fn check_cmd(prop: &str, tier: &str) -> i32 {
     exit
 }
 
-fn spec_probe_names(_spec: &CheckSpec) -> Vec<&'static str> {
-    vec![]
+/// The faults and rare conditions each family of generators is expected to reach; any of
+/// these that never fired in a batch is listed in the evidence as `probes_at_zero`.
+fn spec_probe_names(spec: &CheckSpec) -> Vec<&'static str> {
+    let mut v: Vec<&'static str> = Vec::new();
+    let has = |p: &str| spec.gens.iter().any(|g| g.name.starts_with(p));
+    if has("client.") {
+        v.extend(["fault.stall", "fault.not_ready", "fault.unsolicited_reply", "fault.drop_handles", "probe.preempt", "probe.cancel_on_wire", "probe.abandoned_before_transmission", "probe.reply_for_unknown_id", "probe.duplicate_reply", "probe.reply_within_1ms_of_deadline", "probe.abandoned_after_reply_was_read", "probe.idle_at_in_flight_capacity"]);
+    }
+    if has("client.faults") || spec.gens.iter().any(|g| g.name.contains("fault-enum")) {
+        v.extend(["fault.err_ready", "fault.err_send", "fault.err_flush", "fault.err_next", "fault.eof_next", "probe.request_write_failed"]);
+    }
+    if has("server.") {
+        v.extend(["fault.stall", "fault.not_ready", "fault.drop_unrun", "fault.drop_handler_midway", "fault.peer_eof", "probe.preempt", "probe.duplicate_while_in_flight_ignored", "probe.expired_on_arrival", "probe.cancel_after_handler_finished"]);
+    }
+    if has("server.limit") {
+        v.extend(["probe.request_throttled", "probe.idle_at_limit_with_unready_sink"]);
+    }
+    if has("listener") {
+        v.extend(["fault.channel_closed", "probe.shed", "probe.close_and_same_key_arrival_pending_together"]);
+    }
+    if has("bytes.roundtrip") {
+        v.extend(["fault.pipe_partial_read", "fault.pipe_partial_write", "fault.pipe_read_pending", "fault.pipe_full", "probe.byte_by_byte_reads", "probe.reader_started_late"]);
+    }
+    if has("bytes.adversary") {
+        v.extend(["fault.adversarial_chunk"]);
+    }
+    if has("e2e.") {
+        v.extend(["fault.root_call_abandoned", "fault.clock_skew", "fault.stall"]);
+    }
+    if has("stubs") {
+        v.extend(["fault.stub_call_abandoned", "probe.concurrent_stub_calls"]);
+    }
+    v.sort();
+    v.dedup();
+    v
 }
 
 fn explore_cmd(name: &str, n: u64, seed: u64) -> i32 {
